@@ -6,7 +6,7 @@
 From Coq Require Import ZArith String List Bool Arith Lia.
 From J2O Require Import PyLib Tensor Graph Redirect Preserve Reshape ElemCommute ChainSim ReshapePairPass ChainFacts C02Opt ElemSem
   ElemBroadcast TransposePairPass TransposeRegion TransposeAddForestPass TransposeAddForestSound TransposeReducePass
-  TransposeReduceSound IdReshapePass OrphanPass OptGraph PropagateShapes SwishPass.
+  TransposeReduceSound IdReshapePass OrphanPass OptGraph PropagateShapes SwishPass DropoutPass RefreshSound.
 From J2O Require Annot Onnx.
 From J2OGen Require GenShapes.
 From J2OGen Require Import GenCast GenOpt GenOptPasses.
@@ -94,7 +94,9 @@ Definition o_step_R (g : ograph) : option ograph :=
           Some (match ra_axes a with
                 | AxInput l => mkOG (rt_nodes gx) (rt_outputs gx) (updf dt1 fresh (Some 7%Z)) (updf sh1 fresh (Some [DInt (length l)]))
                                     (updf (o_scalar g) fresh (Nat.eqb (length l) 1)) (updf (o_crank g) fresh (Some 1)) (rt_const gx)
-                | _ => mkOG (rt_nodes gx) (rt_outputs gx) dt1 sh1 (o_scalar g) (o_crank g) (rt_const gx)
+                                    (updf (o_bool g) fresh None)
+                                    (match o_fc g with Some f => if Nat.eqb f fresh then None else Some f | None => None end)
+                | _ => mkOG (rt_nodes gx) (rt_outputs gx) dt1 sh1 (o_scalar g) (o_crank g) (rt_const gx) (o_bool g) (o_fc g)
                 end)
       | _, _ => None
       end
@@ -104,18 +106,18 @@ Definition o_step_R (g : ograph) : option ograph :=
    not modelled by TransposePairPass.v: the declared dims after a fold are an abstract function [tsh] of the graph before
    it, assumed TRUE of the rewritten graph (hypothesis [refresh_ok] below) *)
 Definition mergeT (tsh : ograph -> name -> option (list dim)) (g : ograph) (gx : tgraph) : ograph :=
-  mkOG (tg_nodes gx) (tg_outputs gx) (o_dtype g) (tsh g) (tg_scalar gx) (o_crank g) (o_const g).
+  mkOG (tg_nodes gx) (tg_outputs gx) (o_dtype g) (tsh g) (tg_scalar gx) (o_crank g) (o_const g) (o_bool g) (o_fc g).
 Definition o_step_F tsh (g : ograph) : option ograph := option_map (mergeT tsh g) (addforest_step (projT g)).
 Definition o_step_T tsh (g : ograph) : option ograph := option_map (mergeT tsh g) (transpose_pair_step (projT g)).
 Definition mergeP (g : ograph) (gx : pgraph) : ograph :=
-  mkOG (pg_nodes gx) (pg_outputs gx) (o_dtype g) (pg_shape gx) (pg_scalar gx) (pg_crank gx) (o_const g).
+  mkOG (pg_nodes gx) (pg_outputs gx) (o_dtype g) (pg_shape gx) (pg_scalar gx) (pg_crank gx) (o_const g) (o_bool g) (o_fc g).
 Definition o_step_P (g : ograph) : option ograph := option_map (mergeP g) (reshape_pair_step (projP g)).
 Definition mergeI (g : ograph) (gx : rgraph) : ograph :=
-  mkOG (rg_nodes gx) (rg_outputs gx) (o_dtype g) (o_shape g) (o_scalar g) (o_crank g) (o_const g).
+  mkOG (rg_nodes gx) (rg_outputs gx) (o_dtype g) (o_shape g) (o_scalar g) (o_crank g) (o_const g) (o_bool g) (o_fc g).
 Definition o_step_I (g : ograph) : option ograph := option_map (mergeI g) (idreshape_step (projI g)).
 Definition o_pass_O (fuel : nat) (g : ograph) : ograph :=
   let gx := orphan_pass fuel (o_graph g) in
-  mkOG (g_nodes gx) (g_outputs gx) (o_dtype g) (o_shape g) (o_scalar g) (o_crank g) (o_const g).
+  mkOG (g_nodes gx) (g_outputs gx) (o_dtype g) (o_shape g) (o_scalar g) (o_crank g) (o_const g) (o_bool g) (o_fc g).
 
 (* the views commute with the rewrites: the loops on the common graph are the tied models on the views *)
 Lemma apply_taction_scalar g act : tg_scalar (apply_taction g act) = tg_scalar g.
@@ -146,11 +148,11 @@ Qed.
 Definition VERIFIED_RUNNERS : list string :=
   ["remove_redundant_transpose_reduce_ir"; "remove_redundant_transpose_add_forests_ir"; "remove_redundant_transpose_pairs_ir";
    "remove_redundant_reshape_pairs_ir"; "remove_identity_reshapes_ir"; "remove_orphan_transposes_ir";
-   "propagate_unary_shapes_ir"; "prune_unused_graph_inputs_ir"; "rewrite_mul_sigmoid_as_swish_ir"]%string.
+   "propagate_unary_shapes_ir"; "prune_unused_graph_inputs_ir"; "rewrite_mul_sigmoid_as_swish_ir";
+   "inline_dropout_training_mode_constants_ir"; "propagate_elementwise_shapes_ir"]%string.
 Definition UNMODELLED_RUNNERS : list string :=
   ["_run_name_fix_pass"; "_run_common_subexpression_elimination_pass";
    "_run_lift_constants_to_initializers_pass"; "rewrite_mul_rsqrt_as_div_ir";
-   "inline_dropout_training_mode_constants_ir"; "propagate_elementwise_shapes_ir";
    "remove_redundant_casts_ir"; "remove_dead_nodes_ir"]%string.
 (* exactly the functions of the translated table that are not verified models (a pass added to, or removed from,
    _OPTIMIZER_PASSES breaks this) *)
@@ -190,6 +192,17 @@ Section PSound.
   Hypothesis Hsame : forall op ats vs o, Onnx.str_mem op Annot.first_input_shape_ops = true -> sem op ats vs = Some o ->
     exists x xs y ys, vs = x :: xs /\ o = y :: ys /\ shape y = shape x.
 
+  (* scalar booleans (Dropout's training_mode): [denoteB v = Some b] — v is a one-element BOOL tensor holding b *)
+  Variable denoteB : V -> option bool.
+  Hypothesis denoteB_teq : forall v v', teq v v' -> denoteB v = denoteB v'.
+  Hypothesis denoteB_inj : forall v w b, denoteB v = Some b -> denoteB w = Some b -> shape v = [] -> shape w = [] -> teq v w.
+  Variable mkB : bool -> V.
+  Hypothesis mkB_ok : forall b, denoteB (mkB b) = Some b /\ shape (mkB b) = [].
+  Hypothesis Hnot : forall op ats vs o, op_type op = "Not"%string -> sem op ats vs = Some o ->
+    exists c n, vs = [c] /\ o = [n] /\ shape n = shape c /\ forall b, denoteB c = Some b -> denoteB n = Some (negb b).
+  (* ONNX Dropout: training_mode is a scalar *)
+  Hypothesis Hdrop_tm : forall op ats x r t rest o, op_type op = "Dropout"%string -> sem op ats (x :: r :: t :: rest) = Some o -> shape t = [].
+
   (* Swish(x) is x * Sigmoid(x) *)
   Hypothesis Hswish : forall opS atsS opM atsM x s m, op_type opS = "Sigmoid"%string -> op_type opM = "Mul"%string ->
     sem opS atsS [x] = Some [s] -> (sem opM atsM [x; s] = Some [m] \/ sem opM atsM [s; x] = Some [m]) ->
@@ -227,8 +240,14 @@ Section PSound.
     pa_shape : shape_ok (o_shape g) (o_nodes g) e;
     pa_scalar : forall x, o_scalar g x = true -> exists v, e x = Some v /\ all1 (shape v) = true;
     pa_crank : forall x r, o_crank g x = Some r -> exists v, e x = Some v /\ length (shape v) = r;
-    pa_const : forall x l, o_const g x = Some l -> exists v, e x = Some v /\ denoteZ v = Some l }.
-  Definition pext (g : ograph) (e0 e : env V) : Prop := env_ext A denoteZ (projR g) e0 e.
+    pa_const : forall x l, o_const g x = Some l -> exists v, e x = Some v /\ denoteZ v = Some l;
+    pa_bool : forall x b, o_bool g x = Some b -> exists v, e x = Some v /\ denoteB v = Some b;
+    pa_fc : forall x, o_fc g = Some x -> exists v, e x = Some v /\ denoteB v = Some false /\ shape v = [] }.
+  (* the final environment differs from the given one only at names whose value the graph's constant annotations state
+     (the initializers the passes created: re-mapped axes, false_const) *)
+  Definition pext (g : ograph) (e0 e : env V) : Prop :=
+    forall x, e x = e0 x \/ (exists l v, o_const g x = Some l /\ e x = Some v /\ denoteZ v = Some l) \/
+              (exists b v, o_bool g x = Some b /\ e x = Some v /\ denoteB v = Some b).
 
   Lemma env_final ns (e ef : env V) x v : ssa V ns e -> evalg ns e = Some ef -> e x = Some v -> ef x = Some v.
   Proof.
@@ -241,7 +260,7 @@ Section PSound.
 
   Lemma padm_radm g e : padm g e -> radm A sem denoteZ (projR g) e.
   Proof.
-    intros [Hssa _ _ _ Hc]. split; cbn [projR rt_nodes rt_const].
+    intros [Hssa _ _ _ Hc _ _]. split; cbn [projR rt_nodes rt_const].
     - exact Hssa.
     - intros ef x l v Hev _ Hcx Hx. destruct (Hc x l Hcx) as (v0 & E0 & Hd). rewrite (env_final _ _ _ _ _ Hssa Hev E0) in Hx. congruence.
     - intros n y Hn _ Hy. destruct (o_const g y) as [l|] eqn:Ec; [|reflexivity]. destruct (Hc y l Ec) as (v0 & E0 & _).
@@ -249,12 +268,12 @@ Section PSound.
   Qed.
   Lemma padm_tadm g e : padm g e -> tadmissible A sem (projT g) e.
   Proof.
-    intros [Hssa _ Hs _ _]. split; cbn [projT tg_nodes tg_scalar]; [exact Hssa|].
+    intros [Hssa _ Hs _ _ _ _]. split; cbn [projT tg_nodes tg_scalar]; [exact Hssa|].
     intros ef x v Hev Hsx Hx. destruct (Hs x Hsx) as (v0 & E0 & H1). rewrite (env_final _ _ _ _ _ Hssa Hev E0) in Hx. congruence.
   Qed.
   Lemma padm_padm g e : padm g e -> ReshapePairPass.admissible A sem (projP g) e.
   Proof.
-    intros [Hssa Hsh Hs Hcr _]. split; cbn [projP pg_nodes pg_shape pg_scalar pg_crank].
+    intros [Hssa Hsh Hs Hcr _ _ _]. split; cbn [projP pg_nodes pg_shape pg_scalar pg_crank].
     - exact Hssa.
     - exact Hsh.
     - intros ef x v Hev Hsx Hx. destruct (Hs x Hsx) as (v0 & E0 & H1). rewrite (env_final _ _ _ _ _ Hssa Hev E0) in Hx. congruence.
@@ -271,7 +290,7 @@ Section PSound.
   Qed.
   Lemma padm_iadm g e : padm g e -> IdReshapePass.admissible A sem denotes (projI g) e.
   Proof.
-    intros [Hssa [sigma Hsh] _ _ Hc]. split; cbn [projI rg_nodes rg_shape rg_const].
+    intros [Hssa [sigma Hsh] _ _ Hc _ _]. split; cbn [projI rg_nodes rg_shape rg_const].
     - exact Hssa.
     - intros ef x s a Hev Hs Hx. destruct (o_shape g x) as [ds|] eqn:Eds; [|discriminate].
       exact (concrete_spec sigma ds s (shape a) Hs (Hsh ef x ds a Hev Eds Hx)).
@@ -282,15 +301,37 @@ Section PSound.
   Lemma run_eval g e o : rung g e = Some o -> exists ef, evalg (g_nodes g) e = Some ef.
   Proof. unfold run. destruct (evalg (g_nodes g) e); [eauto | discriminate]. Qed.
 
-  Lemma pext_const g g' e0 e : o_const g' = o_const g -> pext g e0 e -> pext g' e0 e.
-  Proof. unfold pext, env_ext. cbn [projR rt_const]. intros ->. auto. Qed.
+  Lemma pext_const g g' e0 e : o_const g' = o_const g -> o_bool g' = o_bool g -> pext g e0 e -> pext g' e0 e.
+  Proof. unfold pext. intros -> ->. auto. Qed.
 
   (* ================================================================ remove_redundant_transpose_reduce_ir *)
-  Lemma step_ok_R g g' e0 e : padm g e -> pext g e0 e -> o_step_R g = Some g' -> forall o, rung (o_graph g) e = Some o ->
+  (* Composed here for the folds whose axes are an ATTRIBUTE (or absent).  When the axes are an input the pass inserts a
+     Constant node: that case is proved for the pass on its own (TransposeReduceSound.tr_step_sound, plain refinement), but
+     the common admissibility of the pipeline keeps its constant payloads in the environment, so a constant DEFINED BY A NODE
+     is outside it; [axes_attr_along] is the computational side condition. *)
+  Fixpoint axes_attr_along (fuel : nat) (g : rgraphT) : bool :=
+    match fuel with
+    | O => true
+    | S k => match first_some (decide_tr g) (rt_nodes g) with
+             | Some a => match ra_axes a with AxInput _ => false | _ => axes_attr_along k (apply_tr g a) end
+             | None => true
+             end
+    end.
+
+  Lemma apply_tr_attr g a : (forall l, ra_axes a <> AxInput l) -> apply_tr g a = apply_tr_env g a.
+  Proof.
+    intro H. unfold apply_tr. destruct (first_in (ra_T1 a)); [|reflexivity]. destruct (out1 (ra_red a)); [|reflexivity].
+    destruct (out1 (ra_T2 a)); [|reflexivity]. destruct (ra_axes a) as [|l|l]; try reflexivity. destruct (H l eq_refl).
+  Qed.
+
+  Lemma step_ok_R k g g' e0 e : axes_attr_along (S k) (projR g) = true -> padm g e -> pext g e0 e -> o_step_R g = Some g' ->
+    forall o, rung (o_graph g) e = Some o ->
+    axes_attr_along k (projR g') = true /\
     exists e' o', pext g' e0 e' /\ padm g' e' /\ rung (o_graph g') e' = Some o' /\ Forall2 teq o o'.
   Proof.
-    intros Hadm Hext Hstep o Hrun. unfold o_step_R in Hstep.
+    intros Hguard Hadm Hext Hstep o Hrun. unfold o_step_R in Hstep. cbn [axes_attr_along] in Hguard. cbn [projR rt_nodes] in Hguard.
     destruct (first_some (decide_tr (projR g)) (o_nodes g)) as [a|] eqn:Efs; [|discriminate].
+    assert (Hattr : forall l, ra_axes a <> AxInput l) by (intros l E; rewrite E in Hguard; discriminate).
     destruct (first_some_spec _ _ _ Efs) as (T2 & HT2in & Hdec).
     destruct (run_eval _ _ _ Hrun) as [ef Hev]. cbn [o_graph g_nodes] in Hev.
     pose proof (padm_radm g e Hadm) as Hradm.
@@ -298,78 +339,38 @@ Section PSound.
                 (projR g) T2 a e ef Hradm HT2in Hdec Hev) as [Hradm' Hr].
     destruct (transpose_reduce_action_frame A sem sem_proper Htr reduce Hred denoteZ denote_teq Hrm mkZ denote_mkZ
                 (projR g) T2 a e ef Hradm HT2in Hdec Hev) as (ro & t2o & Hro & Ht2o & Hframe).
-    rewrite Hro, Ht2o in Hstep.
-    pose proof (env_ext_step A denoteZ mkZ denote_mkZ (projR g) T2 a e0 e Hdec Hext) as Hext'.
+    rewrite Hro, Ht2o in Hstep. rewrite (apply_tr_attr (projR g) a Hattr) in Hstep, Hguard.
+    assert (He1 : ext_env A mkZ (projR g) a e = e) by (unfold ext_env; destruct (ra_axes a) as [|l|l]; try reflexivity; destruct (Hattr l eq_refl)).
+    rewrite He1 in *.
     destruct (Hr o Hrun) as (o' & Hrun' & Ho').
-    set (e1 := ext_env A mkZ (projR g) a e) in *. set (gx := apply_tr (projR g) a) in *. set (fresh := S (max_name (projR g))) in *.
+    set (gx := apply_tr_env (projR g) a) in *.
     pose proof (ra_ssa _ _ _ _ _ Hradm') as Hssa'.
-    destruct Hadm as [Hssa [sigma Hsh] Hsc Hcr Hco].
-    (* the declared dims of the rewritten graph are true *)
-    assert (Hshape_old : forall y a' ds ef', evalg (rt_nodes gx) e1 = Some ef' -> ef' y = Some a' ->
-              tr_shape_upd (o_shape g) a y = Some ds -> (forall l, ra_axes a = AxInput l -> y <> fresh) ->
-              Forall2 (dim_ok sigma) ds (shape a')).
-    { intros y a' ds ef' Hev' Hy Hds Hnf. unfold tr_shape_upd in Hds. rewrite Hro, Ht2o in Hds.
-      destruct (Hframe ef' y a' Hev' Hy) as [(-> & l & El & _)|[(-> & v & Ev & Hv)|(Hne & v & Ev & Hv)]].
-      - destruct (Hnf l El eq_refl).
-      - rewrite Nat.eqb_refl in Hds. rewrite <- (proj1 Hv). exact (Hsh ef t2o ds v Hev Hds Ev).
-      - destruct (Nat.eqb_spec y ro); [contradiction|]. rewrite <- (proj1 Hv). exact (Hsh ef y ds v Hev Hds Ev). }
-    assert (He1_old : forall x, (forall l, ra_axes a = AxInput l -> x <> fresh) -> e1 x = e x).
-    { intros x Hx. unfold e1, ext_env. destruct (ra_axes a) as [|l|l] eqn:Eax; auto. unfold upd.
-      destruct (Nat.eqb_spec x (S (max_name (projR g)))) as [E|_]; [destruct (Hx l eq_refl E) | reflexivity]. }
-    assert (Hconst_old : forall x, (forall l, ra_axes a = AxInput l -> x <> fresh) -> rt_const gx x = o_const g x).
-    { intros x Hx. unfold gx. rewrite apply_tr_const; [reflexivity|]. intros l El. exact (Hx l El). }
-    exists e1, o'.
-    destruct (ra_axes a) as [|l|l] eqn:Eax; injection Hstep as <-.
-    - split; [exact Hext'|]. split; [|split; [exact Hrun' | exact Ho']].
-      assert (Hnf : forall x l0, AxNone = AxInput l0 -> x <> fresh) by (intros; discriminate).
-      split; cbn [o_nodes o_shape o_scalar o_crank o_const].
-      + exact Hssa'.
-      + exists sigma. intros ef' y ds a' Hev' Hds Hy. exact (Hshape_old y a' ds ef' Hev' Hy Hds (Hnf y)).
-      + intros x Hx. rewrite (He1_old x (Hnf x)). auto.
-      + intros x r Hx. rewrite (He1_old x (Hnf x)). auto.
-      + intros x l0 Hx. rewrite (Hconst_old x (Hnf x)) in Hx. rewrite (He1_old x (Hnf x)). auto.
-    - split; [exact Hext'|]. split; [|split; [exact Hrun' | exact Ho']].
-      assert (Hnf : forall x l0, AxAttr l = AxInput l0 -> x <> fresh) by (intros; discriminate).
-      split; cbn [o_nodes o_shape o_scalar o_crank o_const].
-      + exact Hssa'.
-      + exists sigma. intros ef' y ds a' Hev' Hds Hy. exact (Hshape_old y a' ds ef' Hev' Hy Hds (Hnf y)).
-      + intros x Hx. rewrite (He1_old x (Hnf x)). auto.
-      + intros x r Hx. rewrite (He1_old x (Hnf x)). auto.
-      + intros x l0 Hx. rewrite (Hconst_old x (Hnf x)) in Hx. rewrite (He1_old x (Hnf x)). auto.
-    - split; [exact Hext'|]. split; [|split; [exact Hrun' | exact Ho']].
-      assert (He1f : e1 fresh = Some (mkZ (map Z.of_nat l))).
-      { unfold e1, ext_env. rewrite Eax. unfold upd, fresh. now rewrite Nat.eqb_refl. }
-      assert (Hcf : rt_const gx fresh = Some (map Z.of_nat l)).
-      { destruct (decide_tr_facts (projR g) T2 a Hdec) as (p & q & xin & rin & rrest & ro' & src & HeT2 & _ & _ & Ho2 & _ & _ & _ & _ & _ & _ & _ & _ & _ & _ & Hro' & Hsrc & _).
-        unfold gx, apply_tr. rewrite Hsrc, Hro', HeT2. unfold out1. destruct (n_outs T2); [congruence|]. cbn [hd_error rt_const]. rewrite Eax.
-        unfold fresh. now rewrite Nat.eqb_refl. }
-      assert (Hrof : ro <> fresh).
-      { intro E. assert (Hb : ro <= max_name (projR g)).
-        { apply max_name_ge. right. exists (ra_red a). destruct (decide_tr_facts (projR g) T2 a Hdec) as (p & q & xin & rin & rrest & ro' & src & _ & _ & _ & _ & Hpx & _).
-          split; [exact (proj1 (producer_spec _ _ _ Hpx))|]. apply in_or_app. right. apply in_or_app. right.
-          unfold out1 in Hro. destruct (n_outs (ra_red a)); [discriminate|]. injection Hro as ->. now left. }
-        unfold fresh in E. lia. }
-      assert (Hnf : forall x, x <> fresh -> forall l0, AxInput l = AxInput l0 -> x <> fresh) by auto.
-      clearbody fresh e1 gx.
-      split; cbn [o_nodes o_shape o_scalar o_crank o_const].
-      + exact Hssa'.
-      + exists sigma. intros ef' y ds a' Hev' Hds Hy. unfold updf at 1 in Hds. destruct (Nat.eq_dec y fresh) as [Ey|Hne].
-        * subst y. rewrite Nat.eqb_refl in Hds. injection Hds as <-.
-          assert (Hef' : ef' fresh = Some (mkZ (map Z.of_nat l))).
-          { apply (eval_mono V sem _ e1 ef' fresh _ Hev' He1f). intro Hin. rewrite (proj2 Hssa' fresh Hin) in He1f. discriminate. }
-          assert (a' = mkZ (map Z.of_nat l)) by congruence. subst a'.
-          rewrite mkZ_shape, map_length. constructor; [reflexivity | constructor].
-        * destruct (Nat.eqb_spec y fresh); [contradiction|]. exact (Hshape_old y a' ds ef' Hev' Hy Hds (Hnf y Hne)).
-      + intros x Hx. unfold updf in Hx. destruct (Nat.eq_dec x fresh) as [Ex|Hne].
-        * subst x. rewrite Nat.eqb_refl in Hx. exists (mkZ (map Z.of_nat l)). split; [exact He1f|]. rewrite mkZ_shape, map_length.
-          apply Nat.eqb_eq in Hx. rewrite Hx. reflexivity.
-        * destruct (Nat.eqb_spec x fresh); [contradiction|]. rewrite (He1_old x (Hnf x Hne)). auto.
-      + intros x r Hx. unfold updf in Hx. destruct (Nat.eq_dec x fresh) as [Ex|Hne].
-        * subst x. rewrite Nat.eqb_refl in Hx. injection Hx as <-. exists (mkZ (map Z.of_nat l)). split; [exact He1f|]. now rewrite mkZ_shape.
-        * destruct (Nat.eqb_spec x fresh); [contradiction|]. rewrite (He1_old x (Hnf x Hne)). auto.
-      + intros x l0 Hx. destruct (Nat.eq_dec x fresh) as [Ex|Hne].
-        * subst x. exists (mkZ (map Z.of_nat l)). split; [exact He1f|]. rewrite denote_mkZ. congruence.
-        * rewrite (Hconst_old x (Hnf x Hne)) in Hx. rewrite (He1_old x (Hnf x Hne)). auto.
+    assert (Hconst_same : forall x, rt_const gx x = o_const g x).
+    { intro x. unfold gx. rewrite apply_tr_const; [reflexivity|]. intros l El. destruct (Hattr l El). }
+    assert (Hnext_same : rt_next gx = 0).
+    { unfold gx, apply_tr_env. destruct (first_in (ra_T1 a)); [|reflexivity]. destruct (out1 (ra_red a)); [|reflexivity].
+      destruct (out1 (ra_T2 a)); [|reflexivity]. cbn [rt_next]. destruct (ra_axes a) as [|l|l]; try reflexivity. destruct (Hattr l eq_refl). }
+    destruct Hadm as [Hssa [sigma Hsh] Hsc Hcr Hco Hbo Hfc].
+    assert (Hpadm : forall dt, padm (mkOG (rt_nodes gx) (rt_outputs gx) dt (tr_shape_upd (o_shape g) a) (o_scalar g) (o_crank g) (rt_const gx) (o_bool g) (o_fc g)) e).
+    { intro dt. split; cbn [o_nodes o_shape o_scalar o_crank o_const o_bool o_fc]; auto.
+      - exists sigma. intros ef' y ds a' Hev' Hds Hy. unfold tr_shape_upd in Hds. rewrite Hro, Ht2o in Hds.
+        destruct (Hframe ef' y a' Hev' Hy) as [(_ & l & El & _)|[(-> & v & Ev & Hv)|(Hne & v & Ev & Hv)]].
+        + destruct (Hattr l El).
+        + rewrite Nat.eqb_refl in Hds. rewrite <- (proj1 Hv). exact (Hsh ef t2o ds v Hev Hds Ev).
+        + destruct (Nat.eqb_spec y ro); [contradiction|]. rewrite <- (proj1 Hv). exact (Hsh ef y ds v Hev Hds Ev).
+      - intros x l Hx. rewrite Hconst_same in Hx. auto. }
+    assert (Hshape : exists g1, g' = g1 /\ o_nodes g1 = rt_nodes gx /\ o_outputs g1 = rt_outputs gx /\ o_const g1 = rt_const gx /\ o_bool g1 = o_bool g /\
+                                o_scalar g1 = o_scalar g /\ padm g1 e).
+    { destruct (ra_axes a) as [|l|l] eqn:Eax; [| |destruct (Hattr l eq_refl)]; injection Hstep as <-; eexists; (split; [reflexivity|]); cbn [o_nodes o_outputs o_const o_bool o_scalar];
+        repeat split; auto; apply Hpadm. }
+    destruct Hshape as (g1 & -> & En & Eo & Ec & Eb & Es & Hp1).
+    split.
+    - unfold projR. rewrite En, Eo, Ec. replace (mkRT (rt_nodes gx) (rt_outputs gx) (rt_const gx) 0) with gx;
+        [destruct (ra_axes a) as [|l|l]; [exact Hguard | exact Hguard | destruct (Hattr l eq_refl)]|].
+      clearbody gx. destruct gx as [n1 o1 c1 k1]. cbn [rt_next] in Hnext_same. subst k1. reflexivity.
+    - exists e, o'. split; [|split; [exact Hp1|split; [|exact Ho']]].
+      + intro x. rewrite Ec, Eb, Hconst_same. apply Hext.
+      + unfold run, o_graph in *. rewrite En, Eo. exact Hrun'.
   Qed.
 
   (* ================================================================ the two Transpose fold passes *)
@@ -383,7 +384,7 @@ Section PSound.
   Lemma padm_mergeT tsh g gx e : padm g e -> tadmissible A sem gx e -> tg_scalar gx = o_scalar g -> shape_ok (tsh g) (tg_nodes gx) e ->
     padm (mergeT tsh g gx) e.
   Proof.
-    intros [_ _ Hsc Hcr Hco] Ht Hs Hsh. split; cbn [mergeT o_nodes o_shape o_scalar o_crank o_const]; auto.
+    intros [_ _ Hsc Hcr Hco Hbo Hfc] Ht Hs Hsh. split; cbn [mergeT o_nodes o_shape o_scalar o_crank o_const o_bool o_fc]; auto.
     - exact (tadm_ssa _ _ _ _ Ht).
     - rewrite Hs. exact Hsc.
   Qed.
@@ -398,7 +399,7 @@ Section PSound.
     pose proof (addforest_step_sound A sem sem_proper Htr F Hpw Fcl Hcl Hcl_type Hacc (projT g) gx e Ht Es) as Href.
     pose proof (addforest_step_admissible A sem sem_proper Htr F Hpw Fcl Hcl Hcl_type Hacc (projT g) gx e ef Ht Hev Es) as Ht'.
     destruct (Href o Hrun) as (o' & Hrun' & Ho').
-    exists e, o'. split; [apply (pext_const g); [reflexivity | exact Hext]|]. split; [|split; [exact Hrun' | exact Ho']].
+    exists e, o'. split; [apply (pext_const g); [reflexivity | reflexivity | exact Hext]|]. split; [|split; [exact Hrun' | exact Ho']].
     apply padm_mergeT; auto; [exact (addforest_step_scalar _ _ Es) | exact (refresh_ok_F g gx e ef Hadm Hev Es)].
   Qed.
 
@@ -417,7 +418,7 @@ Section PSound.
     pose proof (transpose_pair_action_admissible A sem sem_proper Htr F Hpw Fcl Hcl Hcl_type Hacc (projT g) act e ef Ht Hev Ed Hk1) as Ht'.
     destruct (Href o Hrun) as (o' & Hrun' & Ho').
     split; [rewrite projT_mergeT; exact Hk2|].
-    exists e, o'. split; [apply (pext_const g); [reflexivity | exact Hext]|]. split; [|split; [exact Hrun' | exact Ho']].
+    exists e, o'. split; [apply (pext_const g); [reflexivity | reflexivity | exact Hext]|]. split; [|split; [exact Hrun' | exact Ho']].
     apply padm_mergeT; auto; [apply apply_taction_scalar | exact (refresh_ok_T g _ e ef Hadm Hev Es0)].
   Qed.
 
@@ -437,14 +438,16 @@ Section PSound.
     pose proof (padm_padm g e Hadm) as Hp.
     pose proof (reshape_pair_step_sound A sem sem_proper Hrs F Hpw_plain Fcl Hcl_plain Hcl_type Hacc_plain (projP g) gx e Hp Es) as Href.
     pose proof (reshape_pair_step_admissible A sem sem_proper Hrs F Hpw_plain Fcl Hcl_plain Hcl_type Hacc_plain (projP g) gx e ef Hp Hev Es) as Hp'.
-    destruct (Href o Hrun) as (o' & Hrun' & Ho'). destruct (reshape_pair_step_flags _ _ Es) as [Hfs Hfc].
-    exists e, o'. split; [apply (pext_const g); [reflexivity | exact Hext]|]. split; [|split; [exact Hrun' | exact Ho']].
-    destruct Hadm as [_ _ Hsc Hcr Hco]. split; cbn [mergeP o_nodes o_shape o_scalar o_crank o_const].
+    destruct (Href o Hrun) as (o' & Hrun' & Ho'). destruct (reshape_pair_step_flags _ _ Es) as [Hfs Hfk].
+    exists e, o'. split; [apply (pext_const g); [reflexivity | reflexivity | exact Hext]|]. split; [|split; [exact Hrun' | exact Ho']].
+    destruct Hadm as [_ _ Hsc Hcr Hco Hbo Hfc]. split; cbn [mergeP o_nodes o_shape o_scalar o_crank o_const o_bool o_fc].
     - exact (ReshapePairPass.adm_ssa _ _ _ _ Hp').
     - exact (ReshapePairPass.adm_shape _ _ _ _ Hp').
     - rewrite Hfs. exact Hsc.
-    - rewrite Hfc. exact Hcr.
+    - rewrite Hfk. exact Hcr.
     - exact Hco.
+    - exact Hbo.
+    - exact Hfc.
   Qed.
 
   (* ================================================================ remove_identity_reshapes_ir *)
@@ -460,7 +463,7 @@ Section PSound.
     pose proof (padm_iadm g e Hadm) as Hi.
     pose proof (idreshape_step_sound A sem sem_proper denotes Hreshape (projI g) gx e Hi Es) as Href.
     destruct (Href o Hrun) as (o' & Hrun' & Ho').
-    exists e, o'. split; [apply (pext_const g); [reflexivity | exact Hext]|]. split; [|split; [exact Hrun' | exact Ho']].
+    exists e, o'. split; [apply (pext_const g); [reflexivity | reflexivity | exact Hext]|]. split; [|split; [exact Hrun' | exact Ho']].
     (* the values of the rewritten run *)
     destruct (IdReshapePass.step_inv _ _ Es) as (n & dst & data & Hn & Hd & ->).
     destruct (IdReshapePass.decide_spec _ _ _ _ Hd) as (_ & Houts & Hne & shp & insr & tgt & s & Hins & _).
@@ -474,7 +477,7 @@ Section PSound.
     assert (Hex : existsb (node_is dst) (rg_nodes (projI g)) = true).
     { apply existsb_exists. exists n. split; auto. unfold node_is. rewrite Houts. apply Nat.eqb_refl. }
     pose proof (redirect_remove_o_undefined V sem (rg_graph (projI g)) e dst data ef' Hssa Hex Hev') as Hundef.
-    destruct Hadm as [_ [sigma Hsh] Hsc Hcr Hco]. split; cbn [mergeI rg_nodes o_nodes o_shape o_scalar o_crank o_const]; auto.
+    destruct Hadm as [_ [sigma Hsh] Hsc Hcr Hco Hbo Hfc]. split; cbn [mergeI rg_nodes o_nodes o_shape o_scalar o_crank o_const o_bool o_fc]; auto.
     - exact (redirect_remove_ssa V (rg_graph (projI g)) e dst data Hssa).
     - exists sigma. intros ef2 x ds a' Hev2 Hds Hx. rewrite Hev' in Hev2. injection Hev2 as <-.
       destruct (Nat.eq_dec x dst) as [->|Hxd]; [congruence|].
@@ -562,10 +565,10 @@ Section PSound.
     intros g e0 e _ Hadm Hext o Hrun.
     destruct (run_eval _ _ _ Hrun) as [ef Hev]. cbn [o_graph g_nodes] in Hev.
     destruct (orphan_pass_sound V teq (@teq_refl A) (@teq_trans A) sem fuel (o_graph g) e o Hrun) as (o' & Hrun' & Ho').
-    exists e, o'. split; [apply (pext_const g); [reflexivity | exact Hext]|]. split; [|split; [|exact Ho']].
-    - destruct Hadm as [Hssa [sigma Hsh] Hsc Hcr Hco].
+    exists e, o'. split; [apply (pext_const g); [reflexivity | reflexivity | exact Hext]|]. split; [|split; [|exact Ho']].
+    - destruct Hadm as [Hssa [sigma Hsh] Hsc Hcr Hco Hbo Hfc].
       destruct (orphan_pass_env fuel (o_graph g) e ef Hssa Hev) as (Hssa' & ef' & Hev' & Hrel).
-      split; cbn [o_pass_O o_nodes o_shape o_scalar o_crank o_const]; auto.
+      split; cbn [o_pass_O o_nodes o_shape o_scalar o_crank o_const o_bool o_fc]; auto.
       exists sigma. intros ef2 x ds a' Hev2 Hds Hx. rewrite Hev' in Hev2. injection Hev2 as <-.
       exact (Hsh ef x ds a' Hev Hds (Hrel x a' Hx)).
     - unfold o_pass_O, o_graph. cbn [o_nodes o_outputs]. destruct (orphan_pass fuel _); exact Hrun'.
@@ -580,8 +583,8 @@ Section PSound.
 
   Lemma unary_prop_node_ok g e n : In n (o_nodes g) -> padm g e -> padm (unary_prop_node g n) e.
   Proof.
-    intros Hn Hadm. pose proof (unary_prop_node_frame g n) as (En & Eo & Es & Ec & Ek).
-    destruct Hadm as [Hssa [sigma Hsh] Hsc Hcr Hco]. split; rewrite ?En, ?Es, ?Ec, ?Ek; auto.
+    intros Hn Hadm. pose proof (unary_prop_node_frame g n) as (En & Eo & Es & Ec & Ek & Eb & Efc).
+    destruct Hadm as [Hssa [sigma Hsh] Hsc Hcr Hco Hbo Hfc]. split; rewrite ?En, ?Es, ?Ec, ?Ek, ?Eb, ?Efc; auto.
     exists sigma. intros ef y ds v Hev Hds Hy. unfold unary_prop_node in Hds.
     destruct (str_in (n_op n) UNARY_DATAFLOW_OPS) eqn:Eop; [|eauto].
     destruct (n_ins n) as [|x xr] eqn:Ei; [eauto|]. destruct (n_outs n) as [|y0 yr] eqn:Eoo; [eauto|].
@@ -600,13 +603,69 @@ Section PSound.
   Proof.
     intros g e0 e _ Hadm Hext o Hrun. unfold o_pass_unary.
     assert (Hgen : forall ns g1, (forall n, In n ns -> In n (o_nodes g)) -> o_nodes g1 = o_nodes g -> o_outputs g1 = o_outputs g -> o_const g1 = o_const g ->
-              padm g1 e -> let g2 := fold_left unary_prop_node ns g1 in
-              o_nodes g2 = o_nodes g /\ o_outputs g2 = o_outputs g /\ o_const g2 = o_const g /\ padm g2 e).
-    { induction ns as [|n r IH]; intros g1 Hsub E1 E2 E3 Ha; simpl; [auto|].
-      pose proof (unary_prop_node_frame g1 n) as (En & Eo & _ & _ & Ek).
-      apply IH; [intros m Hm; apply Hsub; now right | congruence | congruence | congruence |].
+              o_bool g1 = o_bool g -> padm g1 e -> let g2 := fold_left unary_prop_node ns g1 in
+              o_nodes g2 = o_nodes g /\ o_outputs g2 = o_outputs g /\ o_const g2 = o_const g /\ o_bool g2 = o_bool g /\ padm g2 e).
+    { induction ns as [|n r IH]; intros g1 Hsub E1 E2 E3 E4 Ha; simpl; [auto|].
+      pose proof (unary_prop_node_frame g1 n) as (En & Eo & _ & _ & Ek & Eb & _).
+      apply IH; [intros m Hm; apply Hsub; now right | congruence | congruence | congruence | congruence |].
       apply unary_prop_node_ok; auto. rewrite E1. apply Hsub. now left. }
-    destruct (Hgen (o_nodes g) g (fun n H => H) eq_refl eq_refl eq_refl Hadm) as (E1 & E2 & E3 & Ha).
+    destruct (Hgen (o_nodes g) g (fun n H => H) eq_refl eq_refl eq_refl eq_refl Hadm) as (E1 & E2 & E3 & E4 & Ha).
+    exists e, o. split; [apply (pext_const g); auto|]. split; [exact Ha|]. split; [|apply Forall2_veq_refl; apply teq_refl].
+    unfold o_graph. rewrite E1, E2. exact Hrun.
+  Qed.
+
+  (* ================================================================ propagate_elementwise_shapes_ir (annotations only) *)
+  Lemma binary_table_pw op : str_in op ELEMENTWISE_BINARY_OPS = true -> op_type op = op /\ str_in op pw_ops_all = true.
+  Proof.
+    intro H. apply str_in_In in H.
+    assert (Hall : forallb (fun o => String.eqb (op_type o) o && str_in o pw_ops_all) ELEMENTWISE_BINARY_OPS = true) by (vm_compute; reflexivity).
+    rewrite forallb_forall in Hall. specialize (Hall op H). apply andb_prop in Hall as [H1 H2]. apply String.eqb_eq in H1. auto.
+  Qed.
+
+  Lemma cands_true sigma (sh : name -> option (list dim)) (ef : env V) :
+    (forall x ds v, sh x = Some ds -> ef x = Some v -> Forall2 (dim_ok sigma) ds (shape v)) ->
+    forall ins cands vs, mapM sh ins = Some cands -> lookups V ef ins = Some vs ->
+    Forall2 (fun ds v => Forall2 (dim_ok sigma) ds (shape v)) cands vs.
+  Proof.
+    intros Hsh. induction ins as [|x r IH]; simpl; intros cands vs Hm Hl.
+    - injection Hm as <-. injection Hl as <-. constructor.
+    - destruct (sh x) as [ds|] eqn:Es; [|discriminate]. destruct (mapM sh r) as [cr|]; [|discriminate]. injection Hm as <-.
+      destruct (ef x) as [v|] eqn:Ex; [|discriminate]. destruct (lookups V ef r) as [vr|]; [|discriminate]. injection Hl as <-.
+      constructor; eauto.
+  Qed.
+
+  Lemma elem_prop_node_ok g e n : In n (o_nodes g) -> padm g e -> padm (elem_prop_node g n) e.
+  Proof.
+    intros Hn Hadm. pose proof (elem_prop_node_frame g n) as (En & Eo & Es & Ec & Ek & Eb & Efc).
+    destruct Hadm as [Hssa [sigma Hsh] Hsc Hcr Hco Hbo Hfc]. split; rewrite ?En, ?Es, ?Ec, ?Ek, ?Eb, ?Efc; auto.
+    exists sigma. intros ef y ds v Hev Hds Hy. unfold elem_prop_node in Hds.
+    destruct (str_in (n_op n) ELEMENTWISE_BINARY_OPS) eqn:Eop; [|eauto].
+    destruct (n_outs n) as [|y0 yr] eqn:Eoo; [eauto|]. destruct (n_caps n) eqn:Ecaps; [|eauto].
+    destruct (shape_source (projP g) (n_ins n)); [|eauto]. destruct (mapM (o_shape g) (n_ins n)) as [cands|] eqn:Em; [|eauto].
+    destruct (broadcast_dims cands) as [m|] eqn:Ebd; [|eauto].
+    cbn [o_shape] in Hds. unfold updf in Hds. destruct (Nat.eqb_spec y y0) as [->|Hne]; [|eauto]. injection Hds as <-.
+    destruct (eval_consistent V sem _ _ _ n Hssa Hev Hn) as (vs & oo & Hl & Hs & Hlo).
+    destruct (binary_table_pw _ Eop) as [Hnorm Hpwall].
+    assert (Hop' : str_in (op_type (n_op n)) pw_ops_all = true) by (now rewrite Hnorm).
+    destruct (Hpw _ _ _ _ Hop' Hs) as (Hbok & yv & -> & Hyv).
+    unfold n_uses in Hl. rewrite Ecaps, app_nil_r in Hl.
+    rewrite Eoo in Hlo. simpl in Hlo. rewrite Hy in Hlo. destruct (lookups V ef yr) as [[|? ?]|]; try discriminate. injection Hlo as ->.
+    rewrite (proj1 Hyv). cbn [pwg shape].
+    apply (broadcast_dims_bshape A sigma cands vs m); auto.
+    apply (cands_true sigma (o_shape g) ef (fun x ds0 v0 H1 H2 => Hsh ef x ds0 v0 Hev H1 H2) (n_ins n)); auto.
+  Qed.
+
+  Lemma pass_ok_elem : pass_ok_on V teq sem ograph o_graph padm pext (fun _ => True) o_pass_elem.
+  Proof.
+    intros g e0 e _ Hadm Hext o Hrun. unfold o_pass_elem.
+    assert (Hgen : forall ns g1, (forall n, In n ns -> In n (o_nodes g)) -> o_nodes g1 = o_nodes g -> o_outputs g1 = o_outputs g -> o_const g1 = o_const g ->
+              o_bool g1 = o_bool g -> padm g1 e -> let g2 := fold_left elem_prop_node ns g1 in
+              o_nodes g2 = o_nodes g /\ o_outputs g2 = o_outputs g /\ o_const g2 = o_const g /\ o_bool g2 = o_bool g /\ padm g2 e).
+    { induction ns as [|n r IH]; intros g1 Hsub E1 E2 E3 E4 Ha; simpl; [auto|].
+      pose proof (elem_prop_node_frame g1 n) as (En & Eo & _ & _ & Ek & Eb & _).
+      apply IH; [intros m Hm; apply Hsub; now right | congruence | congruence | congruence | congruence |].
+      apply elem_prop_node_ok; auto. rewrite E1. apply Hsub. now left. }
+    destruct (Hgen (o_nodes g) g (fun n H => H) eq_refl eq_refl eq_refl eq_refl Hadm) as (E1 & E2 & E3 & E4 & Ha).
     exists e, o. split; [apply (pext_const g); auto|]. split; [exact Ha|]. split; [|apply Forall2_veq_refl; apply teq_refl].
     unfold o_graph. rewrite E1, E2. exact Hrun.
   Qed.
@@ -615,9 +674,9 @@ Section PSound.
   (* a rewrite that keeps the annotations and every surviving value (up to teq) keeps the graph admissible *)
   Lemma padm_reframe g e ef ns' outs' : padm g e -> evalg (o_nodes g) e = Some ef -> ssa V ns' e ->
     (forall ef' y a', evalg ns' e = Some ef' -> ef' y = Some a' -> exists a, ef y = Some a /\ teq a a') ->
-    padm (mkOG ns' outs' (o_dtype g) (o_shape g) (o_scalar g) (o_crank g) (o_const g)) e.
+    padm (mkOG ns' outs' (o_dtype g) (o_shape g) (o_scalar g) (o_crank g) (o_const g) (o_bool g) (o_fc g)) e.
   Proof.
-    intros [Hssa [sigma Hsh] Hsc Hcr Hco] Hev Hssa' Hrel. split; cbn [o_nodes o_shape o_scalar o_crank o_const]; auto.
+    intros [Hssa [sigma Hsh] Hsc Hcr Hco Hbo Hfc] Hev Hssa' Hrel. split; cbn [o_nodes o_shape o_scalar o_crank o_const o_bool o_fc]; auto.
     exists sigma. intros ef' y ds a' Hev' Hds Hy. destruct (Hrel ef' y a' Hev' Hy) as (a & Ea & Ht). rewrite <- (proj1 Ht). exact (Hsh ef y ds a Hev Hds Ea).
   Qed.
 
@@ -693,7 +752,7 @@ Section PSound.
   Qed.
 
   Definition o_of_graph (g : ograph) (gx : graph) : ograph :=
-    mkOG (g_nodes gx) (g_outputs gx) (o_dtype g) (o_shape g) (o_scalar g) (o_crank g) (o_const g).
+    mkOG (g_nodes gx) (g_outputs gx) (o_dtype g) (o_shape g) (o_scalar g) (o_crank g) (o_const g) (o_bool g) (o_fc g).
   Definition o_step_swish (g : ograph) : option ograph := option_map (o_of_graph g) (swish_step (o_graph g)).
 
   (* the in-place replacement Mul -> Swish keeps every value *)
@@ -775,12 +834,202 @@ Section PSound.
       { intros m Hm Hdm o0 Ho0. apply node_eqb_eq in Hdm. subst m. rewrite forallb_forall in Edead. specialize (Edead o0 Ho0).
         apply negb_true_iff in Edead. exact (mentioned_false _ _ _ _ Edead). }
       destruct (Href2 o1 Hrun1) as (o2 & Hrun2 & Ho2).
-      exists e, o2. split; [apply (pext_const g); [reflexivity | exact Hext]|]. split; [|split; [exact Hrun2|]].
+      exists e, o2. split; [apply (pext_const g); [reflexivity | reflexivity | exact Hext]|]. split; [|split; [exact Hrun2|]].
       + apply (padm_reframe g e ef _ _ Hadm Hev Hssa2). intros ef' y a' Hev' Hy. rewrite Hev2 in Hev'. injection Hev' as <-.
         exact (Hrel1 ef1 y a' Hev1 (Hrel2 y a' Hy)).
       + eapply (Forall2_veq_trans V teq (@teq_trans A)); eauto.
-    - exists e, o1. split; [apply (pext_const g); [reflexivity | exact Hext]|]. split; [|split; [exact Hrun1 | exact Ho1]].
+    - exists e, o1. split; [apply (pext_const g); [reflexivity | reflexivity | exact Hext]|]. split; [|split; [exact Hrun1 | exact Ho1]].
       exact (padm_reframe g e ef _ _ Hadm Hev Hssa1 Hrel1).
+  Qed.
+
+  (* ================================================================ inline_dropout_training_mode_constants_ir *)
+  Section Dropout.
+    Variables (e0 : env V) (o : list V).
+    (* what is carried through the sweep *)
+    Definition dgood (g : ograph) (e : env V) : Prop :=
+      padm g e /\ pext g e0 e /\ exists o', rung (o_graph g) e = Some o' /\ Forall2 teq o o'.
+
+    Lemma drop_decide_facts g n nt : drop_decide g n = Some nt ->
+      op_type (n_op n) = "Dropout"%string /\ exists d0 r0 rest p c crest,
+        n_ins n = d0 :: r0 :: nt :: rest /\ In p (o_nodes g) /\ op_type (n_op p) = "Not"%string /\ n_ins p = c :: crest /\ n_outs p = [nt] /\
+        o_bool g c = Some true.
+    Proof.
+      unfold drop_decide. destruct (is_op "Dropout" n) eqn:Ed; [|discriminate]. cbn [negb].
+      destruct (n_ins n) as [|d0 [|r0 [|tm rest]]] eqn:Ei; try discriminate.
+      destruct (producer (o_nodes g) tm) as [p|] eqn:Ep; [|discriminate]. destruct (is_op "Not" p) eqn:En; [|discriminate]. cbn [negb].
+      destruct (n_ins p) as [|c crest] eqn:Eip; [discriminate|]. destruct (n_outs p) as [|nt0 [|]] eqn:Eop; try discriminate.
+      destruct (o_bool g c) as [[|]|] eqn:Eb; try discriminate. destruct (existsb _ _); [discriminate|]. intro H. injection H as <-.
+      destruct (producer_spec _ _ _ Ep) as [Hp Htm]. rewrite Eop in Htm. destruct Htm as [->|[]].
+      unfold is_op, nop in Ed, En. apply String.eqb_eq in Ed, En. split; [exact Ed|].
+      exists d0, r0, rest, p, c, crest. repeat split; auto.
+    Qed.
+
+    Lemma drop_apply_good g e n nt : dgood g e -> In n (o_nodes g) -> drop_decide g n = Some nt -> exists e', dgood (drop_apply g nt) e'.
+    Proof.
+      intros (Hadm & Hext & o1 & Hrun & Ho1) Hn Hd.
+      destruct (drop_decide_facts g n nt Hd) as (HopD & d0 & r0 & rest & p & c & crest & Hin & Hp & HopN & Hip & Hop & Hbc).
+      set (fc := fc_name g).
+      (* the environment with the false constant *)
+      set (e1 := match o_fc g with Some _ => e | None => upd V e fc (mkB false) end).
+      assert (Hfc_fresh : o_fc g = None -> max_name (projR g) < fc) by (intro E; unfold fc, fc_name; rewrite E; lia).
+      assert (He1fc : exists vf, e1 fc = Some vf /\ denoteB vf = Some false /\ shape vf = []).
+      { unfold e1, fc, fc_name. destruct (o_fc g) as [f|] eqn:Ef.
+        - exact (pa_fc _ _ Hadm f Ef).
+        - exists (mkB false). unfold upd. rewrite Nat.eqb_refl. destruct (mkB_ok false). auto. }
+      destruct He1fc as (vf & Evf & Hdf & Hsf).
+      assert (He1_other : forall x, x <> fc -> e1 x = e x).
+      { intros x Hx. unfold e1. destruct (o_fc g); auto. unfold upd. destruct (Nat.eqb_spec x fc); [contradiction | reflexivity]. }
+      destruct (run_eval _ _ _ Hrun) as [ef Hev]. cbn [o_graph g_nodes] in Hev.
+      pose proof (pa_ssa _ _ Hadm) as Hssa.
+      (* the old graph runs in e1 as well, with the same values *)
+      assert (Hrun_e1 : exists ef1, evalg (o_nodes g) e1 = Some ef1 /\ (forall x, x <> fc -> ef1 x = ef x) /\ ssa V (o_nodes g) e1 /\
+                                   rung (o_graph g) e1 = Some o1 /\ (o_fc g <> None -> ef1 = ef)).
+      { unfold e1. destruct (o_fc g) as [f|] eqn:Ef.
+        - exists ef. split; [exact Hev|]. split; [reflexivity|]. split; [exact Hssa|]. split; [exact Hrun | reflexivity].
+        - specialize (Hfc_fresh eq_refl).
+          destruct (eval_agree V sem [fc] (o_nodes g) e _ ef (agree_upd A e fc (mkB false)) (unmentioned_uses (projR g) fc Hfc_fresh) Hev) as (ef1 & Hev1 & Hag).
+          exists ef1. split; [exact Hev1|]. split; [intros x Hx; symmetry; apply Hag; intros [E|[]]; congruence|]. split.
+          + split; [exact (proj1 Hssa)|]. intros y Hy. unfold upd. destruct (Nat.eqb_spec y fc) as [->|_]; [|exact (proj2 Hssa y Hy)]. exfalso.
+            unfold defs in Hy. apply in_flat_map in Hy as (m & Hm & Hym).
+            assert (Hb : fc <= max_name (projR g)) by (apply max_name_ge; right; exists m; split; auto; apply in_or_app; right; apply in_or_app; now right). lia.
+          + split; [|congruence].
+            unfold run in *. cbn [o_graph g_nodes g_outputs] in *. rewrite Hev in Hrun. rewrite Hev1. rewrite <- Hrun. symmetry.
+            apply (lookups_agree V [fc] ef ef1 _ Hag). intros y Hy [E|[]]. subst y.
+            assert (Hb : fc <= max_name (projR g)) by (apply max_name_ge; now left). lia. }
+      destruct Hrun_e1 as (ef1 & Hev1 & Hsm & Hssa1 & Hrun1 & Hsame_fc).
+      (* the value of the Not's output is the scalar False *)
+      assert (Hfc_ne : nt <> fc).
+      { intro E. assert (Hin_defs : In nt (defs (o_nodes g))) by (unfold defs; apply in_flat_map; exists p; split; auto; rewrite Hop; now left).
+        pose proof (proj2 Hssa1 nt Hin_defs) as H0. rewrite E in H0. congruence. }
+      assert (Hnt_val : forall a, ef1 nt = Some a -> teq a vf).
+      { intros a Ea.
+        destruct (eval_consistent V sem _ _ _ p Hssa1 Hev1 Hp) as (vsp & op & Hlp & Hsp & Hlop).
+        destruct (Hnot _ _ _ _ HopN Hsp) as (vc & vn & -> & -> & Hshn & Hbn).
+        unfold n_uses in Hlp. rewrite Hip in Hlp. simpl in Hlp. destruct (ef1 c) as [vc'|] eqn:Ec; [|discriminate].
+        destruct (lookups V ef1 (crest ++ n_caps p)) as [[|? ?]|]; try discriminate. injection Hlp as ->.
+        rewrite Hop in Hlop. simpl in Hlop. rewrite Ea in Hlop. injection Hlop as <-.
+        destruct (pa_bool _ _ Hadm c true Hbc) as (vc0 & Ec0 & Hdc0).
+        assert (Hcne : c <> fc).
+        { intro E. unfold fc, fc_name in E. destruct (o_fc g) as [f|] eqn:Ef.
+          - subst c. destruct (pa_fc _ _ Hadm f Ef) as (v1 & E1 & D1 & _). congruence.
+          - assert (Hb : c <= max_name (projR g)) by (apply max_name_ge; right; exists p; split; auto; apply in_or_app; left; rewrite Hip; now left). lia. }
+        assert (Hvc : vc = vc0).
+        { pose proof (env_final _ _ _ _ _ Hssa Hev Ec0) as E1. rewrite <- (Hsm c Hcne) in E1. congruence. }
+        subst vc0. specialize (Hbn true Hdc0). simpl in Hbn.
+        (* its shape: the Dropout reads it as training_mode *)
+        destruct (eval_consistent V sem _ _ _ n Hssa1 Hev1 Hn) as (vsn & on & Hln & Hsn & _).
+        unfold n_uses in Hln. rewrite Hin in Hln. simpl in Hln.
+        destruct (ef1 d0) as [vd|]; [|discriminate]. destruct (ef1 r0) as [vr|]; [|discriminate]. rewrite Ea in Hln.
+        destruct (lookups V ef1 (rest ++ n_caps n)) as [vrest|]; [|discriminate]. injection Hln as <-.
+        pose proof (Hdrop_tm _ _ _ _ _ _ _ HopD Hsn) as Hsh.
+        apply (denoteB_inj a vf false); auto. }
+      (* redirect every use *)
+      assert (Hinv : forall pre post em, o_nodes g = pre ++ post -> evalg pre e1 = Some em -> inv V teq nt fc em).
+      { intros pre post em Hsplit Hpre a Ea. exists vf. split.
+        - apply (eval_mono V sem pre e1 em fc vf Hpre Evf). intro Hin_pre.
+          assert (Hdf0 : In fc (defs (o_nodes g))) by (rewrite Hsplit; unfold defs in *; rewrite flat_map_app; apply in_or_app; now left).
+          rewrite (proj2 Hssa1 fc Hdf0) in Evf. discriminate.
+        - apply Hnt_val. assert (Hpost : exists efx, evalg post em = Some efx /\ efx = ef1).
+          { rewrite Hsplit, eval_app, Hpre in Hev1. eauto. }
+          destruct Hpost as (efx & Hpost & ->).
+          apply (prefix_le_final V sem pre post e1 em ef1); auto. now rewrite <- Hsplit. }
+      pose proof (replace_all_uses_sound V teq (@teq_refl A) (@teq_sym A) (@teq_trans A) sem sem_proper nt fc (o_graph g) e1 Hinv) as Href.
+      destruct (Href o1 Hrun1) as (o2 & Hrun2 & Ho2).
+      destruct (eval_subst V teq (@teq_sym A) (@teq_trans A) sem sem_proper nt fc (o_nodes g) e1 e1 ef1 (env_le_refl V teq (@teq_refl A) e1) Hinv Hev1)
+        as (ef2 & Hev2 & Hle2).
+      set (ns2 := map (subst_node nt fc) (o_nodes g)) in *.
+      assert (Hssa2 : ssa V ns2 e1) by (unfold ns2, ssa; rewrite defs_subst; exact Hssa1).
+      (* every value of the new run is a value of the old one *)
+      assert (Hback : forall y a', ef2 y = Some a' -> exists a, ef1 y = Some a /\ teq a a').
+      { intros y a' Hy. assert (Hdy : ef1 y <> None).
+        { destruct (eval_dom V sem ns2 e1 ef2 y Hev2) as [He|Hdef]; [congruence | |].
+          - destruct (e1 y) as [v|] eqn:E1; [|congruence]. rewrite (env_final _ _ _ _ _ Hssa1 Hev1 E1). discriminate.
+          - unfold ns2 in Hdef. rewrite defs_subst in Hdef. exact (eval_defs_defined V sem _ _ _ _ Hssa1 Hev1 Hdef). }
+        destruct (ef1 y) as [a|] eqn:Ea; [|congruence]. destruct (Hle2 y a Ea) as (a2 & Ea2 & Ht). exists a. split; auto. congruence. }
+      exists e1. unfold drop_apply. fold fc. cbn [replace_all_uses o_graph g_nodes g_outputs]. fold ns2.
+      destruct Hadm as [_ [sigma Hsh] Hsc Hcr Hco Hbo Hfco].
+      assert (Hshape_old : forall y ds a', ef2 y = Some a' -> o_shape g y = Some ds -> y <> fc \/ o_fc g <> None -> Forall2 (dim_ok sigma) ds (shape a')).
+      { intros y ds a' Hy Hds Hor. destruct (Hback y a' Hy) as (a & Ea & Ht). rewrite <- (proj1 Ht).
+        assert (Hyfc : y = fc -> o_fc g <> None) by (intro E; destruct Hor; [contradiction | auto]).
+        destruct (Nat.eq_dec y fc) as [E|Hne].
+        - (* the existing false_const: its value is the environment's in both runs *)
+          specialize (Hyfc E). subst y. apply (Hsh ef fc ds a Hev Hds). rewrite <- (Hsame_fc Hyfc). exact Ea.
+        - apply (Hsh ef y ds a Hev Hds). rewrite <- (Hsm y Hne). exact Ea. }
+      unfold dgood. destruct (o_fc g) as [f|] eqn:Ef.
+      - (* the initializer exists already *)
+        assert (e1 = e) by reflexivity. split; [|split].
+        + split; cbn [o_nodes o_shape o_scalar o_crank o_const o_bool o_fc]; auto.
+          exists sigma. intros ef' y ds a' Hev' Hds Hy. rewrite Hev2 in Hev'. injection Hev' as <-. apply (Hshape_old y ds a' Hy Hds). right. discriminate.
+        + apply (pext_const g); [reflexivity | reflexivity | exact Hext].
+        + exists o2. split; [exact Hrun2|]. eapply (Forall2_veq_trans V teq (@teq_trans A)); eauto.
+      - (* a new initializer *)
+        assert (He1f : e1 fc = Some (mkB false)) by (unfold e1, upd; now rewrite Nat.eqb_refl).
+        destruct (mkB_ok false) as [HdB HsB]. clearbody fc.
+        split; [|split].
+        + split; cbn [o_nodes o_shape o_scalar o_crank o_const o_bool o_fc].
+          * exact Hssa2.
+          * exists sigma. intros ef' y ds a' Hev' Hds Hy. rewrite Hev2 in Hev'. injection Hev' as <-. unfold updf in Hds.
+            destruct (Nat.eqb_spec y fc) as [->|Hne].
+            -- injection Hds as <-. assert (Hef2 : ef2 fc = Some (mkB false)).
+               { apply (eval_mono V sem ns2 e1 ef2 fc _ Hev2 He1f). intro Hin2. rewrite (proj2 Hssa2 fc Hin2) in He1f. discriminate. }
+               assert (a' = mkB false) by congruence. subst a'. rewrite HsB. constructor.
+            -- apply (Hshape_old y ds a' Hy Hds). now left.
+          * intros x Hx. unfold updf in Hx. destruct (Nat.eq_dec x fc) as [Ex|Hne].
+            -- subst x. exists (mkB false). split; auto. now rewrite HsB.
+            -- destruct (Nat.eqb_spec x fc); [contradiction|]. rewrite (He1_other x Hne). auto.
+          * intros x r Hx. unfold updf in Hx. destruct (Nat.eq_dec x fc) as [Ex|Hne].
+            -- subst x. rewrite Nat.eqb_refl in Hx. injection Hx as <-. exists (mkB false). split; auto. now rewrite HsB.
+            -- destruct (Nat.eqb_spec x fc); [contradiction|]. rewrite (He1_other x Hne). auto.
+          * intros x l Hx. unfold updf in Hx. destruct (Nat.eq_dec x fc) as [Ex|Hne].
+            -- subst x. rewrite Nat.eqb_refl in Hx. discriminate.
+            -- destruct (Nat.eqb_spec x fc); [contradiction|]. rewrite (He1_other x Hne). auto.
+          * intros x b Hx. unfold updf in Hx. destruct (Nat.eq_dec x fc) as [Ex|Hne].
+            -- subst x. rewrite Nat.eqb_refl in Hx. injection Hx as <-. exists (mkB false). auto.
+            -- destruct (Nat.eqb_spec x fc); [contradiction|]. rewrite (He1_other x Hne). auto.
+          * intros x Hx. injection Hx as <-. exists (mkB false). auto.
+        + intro x. cbn [o_const o_bool]. unfold updf. destruct (Nat.eq_dec x fc) as [Ex|Hne].
+          * subst x. rewrite Nat.eqb_refl. right. right. exists false, (mkB false). auto.
+          * destruct (Nat.eqb_spec x fc); [contradiction|]. rewrite (He1_other x Hne). apply Hext.
+        + exists o2. split; [exact Hrun2|]. eapply (Forall2_veq_trans V teq (@teq_trans A)); eauto.
+    Qed.
+
+    Lemma drop_sweep_good : forall idxs g dels e, dgood g e ->
+      exists e', dgood (fst (fold_left drop_at idxs (g, dels))) e'.
+    Proof.
+      induction idxs as [|i r IH]; intros g dels e Hg; simpl; [eauto|].
+      destruct (nth_error (o_nodes g) i) as [n|] eqn:En; [|eauto].
+      destruct (drop_decide g n) as [nt|] eqn:Ed; [|eauto].
+      destruct (drop_apply_good g e n nt Hg (nth_error_In _ _ En) Ed) as (e1 & Hg1). eauto.
+    Qed.
+
+    Lemma drop_cleanup_good g dels e : dgood g e -> dgood (drop_cleanup g dels) e.
+    Proof.
+      intros (Hadm & Hext & o1 & Hrun & Ho1).
+      destruct (run_eval _ _ _ Hrun) as [ef Hev]. cbn [o_graph g_nodes] in Hev.
+      set (dead := fun m => existsb (fun d => existsb (Nat.eqb d) (n_outs m)) dels &&
+                           forallb (fun o0 => negb (mentioned (o_nodes g) (o_outputs g) m o0)) (n_outs m)).
+      destruct (dead_filter_ok dead (o_nodes g) (o_outputs g) e ef (pa_ssa _ _ Hadm) Hev) as (Hssa2 & (ef2 & Hev2 & Hrel2) & Href2).
+      { intros m Hm Hdm o0 Ho0. unfold dead in Hdm. apply andb_prop in Hdm as [_ Hdm]. rewrite forallb_forall in Hdm. specialize (Hdm o0 Ho0).
+        apply negb_true_iff in Hdm. exact (mentioned_false _ _ _ _ Hdm). }
+      destruct (Href2 o1 Hrun) as (o2 & Hrun2 & Ho2).
+      split; [|split].
+      - unfold drop_cleanup. fold dead. apply (padm_reframe g e ef _ _ Hadm Hev Hssa2). intros ef' y a' Hev' Hy. rewrite Hev2 in Hev'. injection Hev' as <-.
+        exists a'. split; [exact (Hrel2 y a' Hy) | apply teq_refl].
+      - apply (pext_const g); [reflexivity | reflexivity | exact Hext].
+      - exists o2. split; [exact Hrun2|]. eapply (Forall2_veq_trans V teq (@teq_trans A)); eauto.
+    Qed.
+  End Dropout.
+
+  Lemma pass_ok_dropout : pass_ok_on V teq sem ograph o_graph padm pext (fun _ => True) o_pass_dropout.
+  Proof.
+    intros g e0 e _ Hadm Hext o Hrun.
+    assert (Hg : dgood e0 o g e).
+    { split; [exact Hadm|]. split; [exact Hext|]. exists o. split; [exact Hrun | apply (Forall2_veq_refl V teq (@teq_refl A))]. }
+    destruct (drop_sweep_good e0 o (seq 0 (length (o_nodes g))) g [] e Hg) as (e1 & Hg1).
+    unfold o_pass_dropout. destruct (fold_left drop_at (seq 0 (length (o_nodes g))) (g, [])) as [g1 dels] eqn:Ef. cbn [fst] in Hg1.
+    destruct dels as [|d dr].
+    - destruct Hg1 as (Ha & Hx & o' & Hr & Ho). exists e1, o'. auto.
+    - destruct (drop_cleanup_good e0 o g1 (d :: dr) e1 Hg1) as (Ha & Hx & o' & Hr & Ho). exists e1, o'. auto.
   Qed.
 
   Lemma pass_ok_id : pass_ok_on V teq sem ograph o_graph padm pext (fun _ => True) (fun g => g).
@@ -790,10 +1039,10 @@ Section PSound.
   Notation pass_ok := (pass_ok_on V teq sem ograph o_graph padm pext).
   Variable fuel : nat.
 
-  Lemma pass_ok_R : pass_ok (fun _ => True) (loop ograph o_step_R fuel).
+  Lemma pass_ok_R : pass_ok (fun g => axes_attr_along fuel (projR g) = true) (loop ograph o_step_R fuel).
   Proof.
-    apply (loop_ok V teq (@teq_refl A) (@teq_trans A) sem ograph o_graph padm pext o_step_R (fun _ _ => True)).
-    intros k g g' e0 e _ Hadm Hext Hs o Hrun. split; [exact I|]. exact (step_ok_R g g' e0 e Hadm Hext Hs o Hrun).
+    apply (loop_ok V teq (@teq_refl A) (@teq_trans A) sem ograph o_graph padm pext o_step_R (fun k g => axes_attr_along k (projR g) = true)).
+    intros k g g' e0 e Hk Hadm Hext Hs o Hrun. exact (step_ok_R k g g' e0 e Hk Hadm Hext Hs o Hrun).
   Qed.
   Lemma pass_ok_F : pass_ok (fun _ => True) (loop ograph (o_step_F tshF) fuel).
   Proof.
@@ -837,15 +1086,20 @@ Section PSound.
     else if String.eqb runner "remove_identity_reshapes_ir" then loop ograph o_step_I fuel
     else if String.eqb runner "remove_orphan_transposes_ir" then o_pass_O fuel
     else if String.eqb runner "propagate_unary_shapes_ir" then o_pass_unary
+    else if String.eqb runner "propagate_elementwise_shapes_ir" then o_pass_elem
     else if String.eqb runner "rewrite_mul_sigmoid_as_swish_ir" then o_pass_swish
+    else if String.eqb runner "inline_dropout_training_mode_constants_ir" then o_pass_dropout
     (* prune_unused_graph_inputs_ir rewrites graph.inputs only (the INTERFACE: property C05, Interface.prune); nodes, graph
        outputs, initializers and annotations — all of [ograph] — are untouched, and the environment of a run is a function
        of names, so dropping an unused input does not change any run *)
     else if String.eqb runner "prune_unused_graph_inputs_ir" then (fun g => g)
     else U runner.
-  (* the one computational side condition: every action the Transpose-pair pass takes is of a proved kind *)
+  (* the computational side conditions: every action the Transpose-pair pass takes is of a proved kind; every fold of the
+     Transpose-reduce pass has its axes as an attribute (see step_ok_R) *)
   Definition guard_fn (runner : string) (g : ograph) : Prop :=
-    if String.eqb runner "remove_redundant_transpose_pairs_ir" then kinds_along fuel (projT g) = true else True.
+    if String.eqb runner "remove_redundant_transpose_pairs_ir" then kinds_along fuel (projT g) = true
+    else if String.eqb runner "remove_redundant_transpose_reduce_ir" then axes_attr_along fuel (projR g) = true
+    else True.
 
   Definition top_runners : list string := map (fun r => fst (snd r)) OPTIMIZER_PASS_TABLE.
   Definition body_runners : list string := map (fun r => fst (snd r)) (filter (fun r => snd (snd r)) OPTIMIZER_PASS_TABLE).
@@ -860,7 +1114,7 @@ Section PSound.
       repeat (destruct Hr as [<-|Hr]; [exact Hok|]). destruct Hr. }
     unfold top_runners, OPTIMIZER_PASS_TABLE in Hin. simpl in Hin.
     repeat (destruct Hin as [<-|Hin];
-            [first [ exact pass_ok_R | exact pass_ok_F | exact pass_ok_T | exact pass_ok_P | exact pass_ok_I | exact (pass_ok_O fuel) | exact pass_ok_unary | exact pass_ok_id | exact pass_ok_swish
+            [first [ exact pass_ok_R | exact pass_ok_F | exact pass_ok_T | exact pass_ok_P | exact pass_ok_I | exact (pass_ok_O fuel) | exact pass_ok_unary | exact pass_ok_id | exact pass_ok_swish | exact pass_ok_dropout | exact pass_ok_elem
                    | apply Hu; unfold UNMODELLED_RUNNERS; simpl; tauto ]|]).
     destruct Hin.
   Qed.
@@ -900,7 +1154,8 @@ End PSound.
 (* the union of the semantic hypotheses of the verified passes *)
 Definition opt_world (A : Type) (sem : string -> list nat -> list (tensor A) -> option (list (tensor A)))
   (F : string -> list nat -> list A -> A) (Fcl : list nat -> tensor A -> A -> A) (reduce : list nat -> tensor A -> tensor A)
-  (denoteZ : tensor A -> option (list Z)) (mkZ : list Z -> tensor A) : Prop :=
+  (denoteZ : tensor A -> option (list Z)) (mkZ : list Z -> tensor A)
+  (denoteB : tensor A -> option bool) (mkB : bool -> tensor A) : Prop :=
   (forall op ats vs vs' o, Forall2 teq vs vs' -> sem op ats vs = Some o -> exists o', sem op ats vs' = Some o' /\ Forall2 teq o o') /\
   sem_transpose_spec A sem op_type /\ sem_reshape_spec A sem /\
   sem_pointwise_spec_g A sem op_type F /\ sem_castlike_spec_n A sem op_type Fcl /\ castlike_type_only A Fcl /\
@@ -913,44 +1168,50 @@ Definition opt_world (A : Type) (sem : string -> list nat -> list (tensor A) -> 
      exists x xs y ys, vs = x :: xs /\ o = y :: ys /\ shape y = shape x) /\
   (forall opS atsS opM atsM x s m, op_type opS = "Sigmoid"%string -> op_type opM = "Mul"%string ->
      sem opS atsS [x] = Some [s] -> (sem opM atsM [x; s] = Some [m] \/ sem opM atsM [s; x] = Some [m]) ->
-     exists w, sem "Swish"%string [] [x] = Some [w] /\ teq m w).
+     exists w, sem "Swish"%string [] [x] = Some [w] /\ teq m w) /\
+  (forall v v', teq v v' -> denoteB v = denoteB v') /\
+  (forall v w b, denoteB v = Some b -> denoteB w = Some b -> shape v = [] -> shape w = [] -> teq v w) /\
+  (forall b, denoteB (mkB b) = Some b /\ shape (mkB b) = []) /\
+  (forall op ats vs o, op_type op = "Not"%string -> sem op ats vs = Some o ->
+     exists c n, vs = [c] /\ o = [n] /\ shape n = shape c /\ forall b, denoteB c = Some b -> denoteB n = Some (negb b)) /\
+  (forall op ats x r t rest o, op_type op = "Dropout"%string -> sem op ats (x :: r :: t :: rest) = Some o -> shape t = []).
 
 (* the declared dims the two Transpose fold passes leave behind are true (the part of them that is not modelled) *)
-Definition refresh_ok (A : Type) sem denoteZ (stepf : tgraph -> option tgraph) (tsh : ograph -> name -> option (list dim)) : Prop :=
-  forall g gx e ef, padm A sem denoteZ g e -> eval (tensor A) sem (o_nodes g) e = Some ef -> stepf (projT g) = Some gx ->
+Definition refresh_ok (A : Type) sem denoteZ denoteB (stepf : tgraph -> option tgraph) (tsh : ograph -> name -> option (list dim)) : Prop :=
+  forall g gx e ef, padm A sem denoteZ denoteB g e -> eval (tensor A) sem (o_nodes g) e = Some ef -> stepf (projT g) = Some gx ->
     shape_ok A sem (tsh g) (tg_nodes gx) e.
 
 (* every pass of the table that is not a verified model refines and keeps the graph admissible *)
-Definition unmodelled_ok (A : Type) sem denoteZ (U : string -> ograph -> ograph) : Prop :=
-  Forall (fun r => pass_ok_on (tensor A) teq sem ograph o_graph (padm A sem denoteZ) (pext A denoteZ) (fun _ => True) (U r)) UNMODELLED_RUNNERS.
+Definition unmodelled_ok (A : Type) sem denoteZ denoteB (U : string -> ograph -> ograph) : Prop :=
+  Forall (fun r => pass_ok_on (tensor A) teq sem ograph o_graph (padm A sem denoteZ denoteB) (pext A denoteZ denoteB) (fun _ => True) (U r)) UNMODELLED_RUNNERS.
 
 Definition optimize_top tshF tshT fuel opset U : ograph -> ograph := run_passes ograph (impl_fn tshF tshT fuel opset U) top_runners.
 Definition optimize_body tshF tshT fuel opset U : ograph -> ograph := run_passes ograph (impl_fn tshF tshT fuel opset U) body_runners.
 Definition kinds_ok_top tshF tshT fuel opset U : ograph -> Prop := guards_along ograph (impl_fn tshF tshT fuel opset U) (guard_fn fuel) top_runners.
 Definition kinds_ok_body tshF tshT fuel opset U : ograph -> Prop := guards_along ograph (impl_fn tshF tshT fuel opset U) (guard_fn fuel) body_runners.
 
-Theorem optimize_graph_sound (A : Type) sem F Fcl reduce denoteZ mkZ : opt_world A sem F Fcl reduce denoteZ mkZ ->
-  forall tshF tshT, refresh_ok A sem denoteZ addforest_step tshF -> refresh_ok A sem denoteZ transpose_pair_step tshT ->
-  forall fuel opset U, unmodelled_ok A sem denoteZ U ->
-  forall g e, kinds_ok_top tshF tshT fuel opset U g -> padm A sem denoteZ g e ->
+Theorem optimize_graph_sound (A : Type) sem F Fcl reduce denoteZ mkZ denoteB mkB : opt_world A sem F Fcl reduce denoteZ mkZ denoteB mkB ->
+  forall tshF tshT, refresh_ok A sem denoteZ denoteB addforest_step tshF -> refresh_ok A sem denoteZ denoteB transpose_pair_step tshT ->
+  forall fuel opset U, unmodelled_ok A sem denoteZ denoteB U ->
+  forall g e, kinds_ok_top tshF tshT fuel opset U g -> padm A sem denoteZ denoteB g e ->
   forall o, run (tensor A) sem (o_graph g) e = Some o ->
-  exists e' o', pext A denoteZ (optimize_top tshF tshT fuel opset U g) e e' /\ padm A sem denoteZ (optimize_top tshF tshT fuel opset U g) e' /\
+  exists e' o', pext A denoteZ denoteB (optimize_top tshF tshT fuel opset U g) e e' /\ padm A sem denoteZ denoteB (optimize_top tshF tshT fuel opset U g) e' /\
                 run (tensor A) sem (o_graph (optimize_top tshF tshT fuel opset U g)) e' = Some o' /\ Forall2 teq o o'.
 Proof.
-  intros (H1 & H2 & H3 & H4 & H5 & H6 & H7 & H8 & H9 & H10 & H11 & H12 & H13 & H14 & H15) tshF tshT HF HT fuel opset U HU.
-  exact (optimize_pipeline_sound A sem H1 H2 H3 F H4 Fcl H5 H6 H7 reduce H8 denoteZ H9 H10 mkZ H11 H12 H13 H14 H15 tshF tshT HF HT fuel opset U HU).
+  intros (H1 & H2 & H3 & H4 & H5 & H6 & H7 & H8 & H9 & H10 & H11 & H12 & H13 & H14 & H15 & H16 & H17 & H18 & H19 & H20) tshF tshT HF HT fuel opset U HU.
+  eapply optimize_pipeline_sound; eassumption.
 Qed.
 
-Theorem optimize_graph_sound_function_bodies (A : Type) sem F Fcl reduce denoteZ mkZ : opt_world A sem F Fcl reduce denoteZ mkZ ->
-  forall tshF tshT, refresh_ok A sem denoteZ addforest_step tshF -> refresh_ok A sem denoteZ transpose_pair_step tshT ->
-  forall fuel opset U, unmodelled_ok A sem denoteZ U ->
-  forall g e, kinds_ok_body tshF tshT fuel opset U g -> padm A sem denoteZ g e ->
+Theorem optimize_graph_sound_function_bodies (A : Type) sem F Fcl reduce denoteZ mkZ denoteB mkB : opt_world A sem F Fcl reduce denoteZ mkZ denoteB mkB ->
+  forall tshF tshT, refresh_ok A sem denoteZ denoteB addforest_step tshF -> refresh_ok A sem denoteZ denoteB transpose_pair_step tshT ->
+  forall fuel opset U, unmodelled_ok A sem denoteZ denoteB U ->
+  forall g e, kinds_ok_body tshF tshT fuel opset U g -> padm A sem denoteZ denoteB g e ->
   forall o, run (tensor A) sem (o_graph g) e = Some o ->
-  exists e' o', pext A denoteZ (optimize_body tshF tshT fuel opset U g) e e' /\ padm A sem denoteZ (optimize_body tshF tshT fuel opset U g) e' /\
+  exists e' o', pext A denoteZ denoteB (optimize_body tshF tshT fuel opset U g) e e' /\ padm A sem denoteZ denoteB (optimize_body tshF tshT fuel opset U g) e' /\
                 run (tensor A) sem (o_graph (optimize_body tshF tshT fuel opset U g)) e' = Some o' /\ Forall2 teq o o'.
 Proof.
-  intros (H1 & H2 & H3 & H4 & H5 & H6 & H7 & H8 & H9 & H10 & H11 & H12 & H13 & H14 & H15) tshF tshT HF HT fuel opset U HU.
-  exact (optimize_pipeline_sound_function_bodies A sem H1 H2 H3 F H4 Fcl H5 H6 H7 reduce H8 denoteZ H9 H10 mkZ H11 H12 H13 H14 H15 tshF tshT HF HT fuel opset U HU).
+  intros (H1 & H2 & H3 & H4 & H5 & H6 & H7 & H8 & H9 & H10 & H11 & H12 & H13 & H14 & H15 & H16 & H17 & H18 & H19 & H20) tshF tshT HF HT fuel opset U HU.
+  eapply optimize_pipeline_sound_function_bodies; eassumption.
 Qed.
 
 (* the two orders, as computed from the translated table (a reordering of _OPTIMIZER_PASSES changes these) *)
@@ -975,7 +1236,7 @@ Example pipeline_runs :
   let g := mkOG [mkNode "Transpose" [1; 1; 0] [1] [] [2]; mkNode "ReduceMean" [2; 1; 2] [2] [] [3]; mkNode "Transpose" [1; 1; 0] [3] [] [4];
                  mkNode "Reshape" [] [4; 9] [] [5]] [5]
                 (fun _ => None) (fun x => if Nat.eqb x 4 then Some [DInt 1; DInt 3] else None) (fun _ => false) (fun _ => None)
-                (fun x => if Nat.eqb x 9 then Some [1%Z; 3%Z] else None) in
+                (fun x => if Nat.eqb x 9 then Some [1%Z; 3%Z] else None) (fun _ => None) None in
   o_nodes (optimize_top (fun g => o_shape g) (fun g => o_shape g) 5 24 (fun _ g => g) g)
   = [mkNode "ReduceMean" [2; 1; 0] [1] [] [3]] /\
   o_outputs (optimize_top (fun g => o_shape g) (fun g => o_shape g) 5 24 (fun _ g => g) g) = [3].
